@@ -32,6 +32,21 @@ def gen(tier, rng):
     for o in ['-', '0', '1', '5', '-3']:
         for x in ['0', '1', '2', '-3']:
             lines.append(f'opt_has {o} {x}')
+    # defer: every balanced program over {d, {, }, r, p} up to the bound runs with real defer! guards in nested
+    # stack frames of the harness (the order is decided by Rust's drop semantics) against the Lean model
+    def balanced(p):
+        d = 0
+        for ch in p:
+            if ch == '{':
+                d += 1
+            elif ch == '}':
+                d -= 1
+                if d < 0:
+                    return False
+        return d == 0
+    for p_ in vlib.all_strings(['d', '{', '}', 'r', 'p'], 7 if tier == 'quick' else 9):
+        if balanced(p_):
+            lines.append('defer ' + vlib.hx(p_))
     nrand = 5000 if tier == 'quick' else 100000
     for _ in range(nrand):
         ln = rng.randint(0, 40)
@@ -49,7 +64,7 @@ def nontrivial(req, impl):
 
 
 SPEC = dict(
-    prop='C19', lean_mod='Rivia.Props.C19', mode='pathfn', gen=gen, nontrivial=nontrivial,
+    prop='C19', lean_mod='Rivia.Props.C19,Rivia.Props.C19D', mode='pathfn', gen=gen, nontrivial=nontrivial,
     rule='drop/slice: all lengths 0..8 x all index pairs in -10..10 plus isize::MIN/MAX (exhaustive), random longer sequences and extreme indices; '
          'first/first_result/last_result/single/some/consume for each length; to_bool over all strings up to the bound over a casing alphabet; '
          'trim_suffix / take_while_p over all string pairs; Option::has over a small table. non-trivial = result is non-empty / true / some',
